@@ -247,6 +247,11 @@ def c11(ctx):
                 history = []
                 for rnd in range(r.randint(1, 3)):
                     t_now = t_prev + 100
+                    if r.random() < 0.12:
+                        # the clock was stepped back (or the Manifest comes from a machine whose clock ran ahead): the previous
+                        # TIMESTAMP lies in the future, the new one is still the start of this scan
+                        t_now = t_prev - r.choice([30, 500, 86400])
+                        stats['clock_stepped_back'] = stats.get('clock_stepped_back', 0) + 1
                     ops = gen_history(r, live, t_prev)
                     sizes = {p: os.path.getsize(os.path.join(a, p)) for p in live if os.path.exists(os.path.join(a, p))}
                     # a file modified during the previous scan counts as modified at (previous start + 1 s)
@@ -288,6 +293,7 @@ def c11(ctx):
                         stats['midscan_injections'] += 1
                     fd0 = ET.fd_count()
                     frac = r.choice([0.0, 0.25, 0.5, 0.75, 0.999])
+                    top_before = {'incremental': manifests_of(listing(a)).get('Manifest', b''), 'full': manifests_of(listing(b)).get('Manifest', b'')}
                     ra = run_cli(['update', '-i', '-H', ' '.join(hashes), a], t_now, tz, key, mk_hook(a) if inject else None, frac)
                     if ET.fd_count() > fd0:
                         stats['descriptor_leaks'] = stats.get('descriptor_leaks', 0) + 1
@@ -307,6 +313,8 @@ def c11(ctx):
                     # (b) the TIMESTAMP in the Manifest is never later than the start of the scan (the clock has advanced since)
                     for which, lst in (('incremental', la), ('full', lb)):
                         top = manifests_of(lst).get('Manifest', b'')
+                        if top == top_before[which]:
+                            continue            # not rewritten by this run: its TIMESTAMP is the one of an earlier update
                         got = [x for x in top.split(b'\n') if x.startswith(b'TIMESTAMP')]
                         for g in got:
                             try:
